@@ -126,3 +126,48 @@ Inductive reach_cons : sys -> Prop :=
 Definition list_at (s : server) (db : Z) (k : bytes) : list bytes :=
   match get_val (get_db s db) k with Some (VList l) => l | _ => [] end.
 Definition occ (x : bytes) (l : list bytes) : Z := len (filter (fun y => beq y x) l).
+
+(** ---- witness histories of the known classes (evaluated in Props/C13.v) ---- *)
+Definition cmd (l : list bytes) : frame := FArray (map FBulk l).
+Definition at0 (c : Z) (l : list bytes) (oms : option Z) : event := EFrame 0 c (cmd l) oms.
+Definition sys0 : sys := (init_server None, init_blocking).
+Definition out_to (st : sys) (c : Z) : list frame := rev (frames_to c (b_out (snd st))).
+Definition waiting (st : sys) (db : Z) (k : bytes) : list Z := map w_conn (reg_get (b_reg (snd st)) (db, k)).
+
+(** blocked-disconnect: the client of a blocked connection goes away, the next element is
+    delivered into the dead connection and is gone *)
+Definition w_disconnect : list event :=
+  [EConnect 1; EConnect 2; at0 1 [bs "BLPOP"; bs "q"; bs "0"] (Some 0); EDisconnect 1;
+   at0 2 [bs "LPUSH"; bs "q"; bs "v"] None; EWakeups].
+(** pipelined-behind-block: two blocking calls processed in one read: the second overwrites the
+    Blocked state, the first's registration times out and its nil answers ... the second,
+    which asked to wait forever and whose registration is left behind *)
+Definition w_behind : list event :=
+  [EConnect 1; at0 1 [bs "BLPOP"; bs "q"; bs "0.3"] (Some 300); at0 1 [bs "BLPOP"; bs "r"; bs "0"] (Some 0);
+   ETimeouts 300].
+(** blocking-in-exec: BLPOP inside MULTI registers a waiter for connection id 0; it is ahead of a
+    real client, takes the next push (put back for want of a connection 0) and the real client
+    stays blocked although its key holds an element *)
+Definition w_exec : list event :=
+  [EConnect 1; EConnect 2; EConnect 3; at0 1 [bs "MULTI"] None; at0 1 [bs "BLPOP"; bs "q"; bs "0"] None;
+   at0 1 [bs "EXEC"] None; at0 2 [bs "BLPOP"; bs "q"; bs "0"] (Some 0); at0 3 [bs "LPUSH"; bs "q"; bs "v"] None;
+   EWakeups].
+(** wrongtype-at-wake: the key of a queued wake-up holds a string by the time the wake-up runs:
+    the error leaves the event loop *)
+Definition w_wrongtype : list event :=
+  [EConnect 1; EConnect 2; at0 1 [bs "BLPOP"; bs "q"; bs "0"] (Some 0); at0 2 [bs "LPUSH"; bs "q"; bs "v"] None;
+   at0 2 [bs "DEL"; bs "q"] None; at0 2 [bs "SET"; bs "q"; bs "x"] None; EWakeups].
+(** requeue-at-back: a wake-up that finds its element taken re-registers the client BEHIND the
+    clients that blocked after it *)
+Definition w_requeue : list event :=
+  [EConnect 1; EConnect 2; EConnect 3; at0 1 [bs "BLPOP"; bs "q"; bs "0"] (Some 0);
+   at0 2 [bs "BLPOP"; bs "q"; bs "0"] (Some 0); at0 3 [bs "LPUSH"; bs "q"; bs "a"] None; at0 3 [bs "LPOP"; bs "q"] None;
+   EWakeups; at0 3 [bs "LPUSH"; bs "q"; bs "b"] None; EWakeups].
+(** a history inside every hypothesis: two clients on one key, two pushes, a timeout *)
+Definition w_good : list event :=
+  [EConnect 1; EConnect 2; EConnect 3; at0 1 [bs "BLPOP"; bs "q"; bs "r"; bs "0"] (Some 0);
+   at0 2 [bs "BRPOP"; bs "q"; bs "0.3"] (Some 300); at0 3 [bs "RPUSH"; bs "q"; bs "a"; bs "b"; bs "c"] None; EWakeups;
+   at0 2 [bs "BLPOP"; bs "m"; bs "0.3"] (Some 300); ETimeouts 300].
+(** every event of a history satisfies [ok] where it is executed *)
+Fixpoint all_ok (st : sys) (evs : list event) : bool :=
+  match evs with [] => true | e :: r => ok st e && all_ok (step st e) r end.
